@@ -38,6 +38,10 @@ def rnd_stamp(rng):
 
 def events(ctx):
     rng = ctx.rng
+    from ..core import source_constants
+    for c in source_constants():
+        yield record("cds.unpack", {"octets": list(c) + [64, 0x12, 0x34, 0, 0, 0, 9]})
+        yield record("cds.unpack", {"octets": (list(c) + [64, 0x12, 0x34, 0, 0, 0, 9][len(c):])[:7] + [1, 2, 3]})
     # days related to TODAY (the library's now() runs before every stamp is built): today, and today shifted by the distance
     # between the CCSDS and the Unix epoch in either direction
     import datetime as _dt
